@@ -41,6 +41,9 @@ func C13(tier rt.Tier) int {
 			{name: "1key-very-deep", keys: []int{0}, vals: []string{"a", "b"}, levels: []int{0}, gc: true, depth: 12, c13: true, maxNoDup: 7},
 			// collection passes whose storage write is rejected (and retried) before the rollback
 			{name: "2keys-failing-gc-writes", keys: []int{0, 5}, vals: []string{"a", "b"}, levels: []int{0}, gc: true, gcFault: true, depth: 10, c13: true, maxNoDup: 6},
+			// values SHARED between keys (the same content under two keys is one value record) and two values of
+			// equal weight: the rolled-back batch can move a value from one key to another or exchange two
+			{name: "2keys-shared-equal-weight-values", shared: true, keys: []int{0, 5}, vals: []string{"a", "c"}, levels: []int{0, 1}, gc: true, depth: 8, c13: true, maxNoDup: 6},
 		}
 	} else {
 		per = 5 * time.Minute
@@ -48,6 +51,7 @@ func C13(tier rt.Tier) int {
 			{name: "3keys-all-levels", keys: []int{0, 2, 5}, vals: []string{"a", "b"}, levels: []int{0, 1, 2, 64}, gc: true, rootOp: true, depth: 9, c13: true, maxNoDup: 5},
 			{name: "4keys", keys: []int{0, 1, 2, 4}, vals: []string{"a", "b"}, levels: []int{0, 64}, gc: true, depth: 9, c13: true, maxNoDup: 5},
 			{name: "1key-very-deep", keys: []int{0}, vals: []string{"a", "b"}, levels: []int{0, 1}, gc: true, depth: 15, c13: true, maxNoDup: 8},
+			{name: "3keys-shared-equal-weight-values", shared: true, keys: []int{0, 1, 5}, vals: []string{"a", "c", "b"}, levels: []int{0, 1, 64}, gc: true, depth: 10, c13: true, maxNoDup: 6},
 		}
 	}
 	for _, c := range runs {
